@@ -266,7 +266,10 @@ func TestVerifC14(t *testing.T) {
 		}
 	}
 	// (B) free-text substitution.
-	alts := []string{"PIIalt", "runtime.sigpanic()", "goroutine 9 [running]:", "sentinel 1234", "\tx.go:1 +0x1 sp=0x1 fp=0x2 pc=0x" + fmt.Sprintf("%x", pool[0]), ""}
+	// The runtime indents the continuation lines of a multi-line panic message with a tab, so
+	// that a message cannot forge a goroutine header; indented header-like text is free text.
+	alts := []string{"PIIalt", "runtime.sigpanic()", "goroutine 9 [running]:", "sentinel 1234", "\tx.go:1 +0x1 sp=0x1 fp=0x2 pc=0x" + fmt.Sprintf("%x", pool[0]), "",
+		"\tgoroutine 9 [running]:", "  goroutine 9 [running]:", "\tgoroutine 9 [running]:\n\tPII.forged(...)\n\t\t/PII/f.go:1 +0x1 sp=0x1 fp=0x2 pc=0x" + fmt.Sprintf("%x", pool[1]), "\tsentinel 1234"}
 	for _, n := range []int{1, 2, 5} {
 		var frames []zzvFrame
 		for i := 0; i < n; i++ {
@@ -307,6 +310,8 @@ func TestVerifC14(t *testing.T) {
 		}
 		for ai, alt := range alts {
 			alt := alt
+			multi := alt
+			alt = strings.ReplaceAll(alt, "\n", " ") // only message-like slots can span lines
 			for i := range frames {
 				i := i
 				if !frames[i].sigpanic {
@@ -318,10 +323,10 @@ func TestVerifC14(t *testing.T) {
 			for i := range b0.message {
 				i := i
 				subst(fmt.Sprintf("message line %d -> alt%d", i, ai), func(t *zzvTrace) {
-					if strings.HasPrefix(alt, "goroutine") || strings.HasPrefix(alt, "sentinel") {
-						t.message[i] = "PII " + alt
+					if strings.HasPrefix(multi, "goroutine") || strings.HasPrefix(multi, "sentinel") {
+						t.message[i] = "PII " + multi
 					} else {
-						t.message[i] = alt
+						t.message[i] = multi
 					}
 				})
 			}
@@ -357,6 +362,7 @@ func TestVerifC14(t *testing.T) {
 	kinds := []string{
 		fmt.Sprintf("sentinel %x", sentinel()), fmt.Sprintf("sentinel %x", sentinel()+0x1000), "sentinel zz", "sentinel ",
 		"goroutine 1 [running]:", "goroutine 2 [sleep]:", "goroutine 3 [running, locked to thread]:", "", "created by PII.main in goroutine 1",
+		"\tgoroutine 1 [running]:",
 		"PII.f(...)", "PIIpkg.(*T).m(0x1, {0x2})", "PIIpkg.F[...](...)", "runtime.sigpanic()", "runtime.sigpanic", "PII text without paren",
 		"\t/PII/f.go:1 +0x1 sp=0x1 fp=0x2 pc=0x" + pc0, "\t/PII/f.go:1 +0x1", "\t/PII/f.go:1 pc=0xzz", "\t/PII/f.go:1 pc=0x" + pc0 + " PIItrailing", "\t/PII/f.go:1 pc=0xffffffffffffffff", "\t/PII/f.go:1 pc=0x0",
 		"PII line with\r",
